@@ -465,7 +465,7 @@ func (w *world) post(cfg Config, during []int) {
 	case valid && rw.Code != 200:
 		w.failf("C18/config/valid/rejected", "a valid configuration was answered %d: %s | %s", rw.Code, trunc(rw.Body.Bytes(), 200), trunc(cfg.JSON(), 600))
 	case !valid && rw.Code == 200:
-		w.failf("C18/config/invalid/accepted", "an invalid configuration was answered 200: %s", trunc(cfg.JSON(), 600))
+		w.failf("C18/config/invalid-"+cfg.Why()+"/accepted", "an invalid configuration (%s) was answered 200: %s", cfg.Why(), trunc(cfg.JSON(), 600))
 	case !valid && rw.Code != 400:
 		w.failf("C18/config/invalid/status-not-400", "an invalid configuration was answered %d, want 400: %s", rw.Code, trunc(cfg.JSON(), 600))
 	}
@@ -478,7 +478,9 @@ func (w *world) post(cfg Config, during []int) {
 		if valid {
 			w.active = buildModel(cfg, w.epoch)
 		} else {
+			// what the listener does now is not a configuration the model knows
 			w.active = &cfgM{epoch: w.epoch}
+			w.abort = true
 		}
 	} else {
 		w.rejected += cfg.shapesNamed()
